@@ -14,6 +14,17 @@ Definition known_gap (i : input) : bool :=
   | _, _, _ => false
   end.
 
+(* the same gap when the request names the second client Y and acts for it *)
+Definition other_gap (i : input) : bool :=
+  match i_router i, i_endpoint i, i_grant i with
+  | RProvider, EToken, GDevice =>
+      match names_other_client (i_pres i) with
+      | Some v => negb (registered (victim_reg v) GDevice)
+      | None => false
+      end
+  | _, _, _ => false
+  end.
+
 Definition success (o : observed) : bool :=
   match o with ORes S2 _ _ _ _ => true | _ => false end.
 
@@ -118,15 +129,39 @@ Qed.
 (* whatever the model answers is either the success document or a well-shaped refusal *)
 Lemma refusal_shape_model : forall i,
   match model i with
-  | ORes S2 e tok act w => e = ENone /\ (w = WOther -> other_justified i = true)
+  | ORes S2 e tok act w => e = ENone
   | ORes s e tok act w => refusal_shape (i_endpoint i) s e tok act w = true
   | _ => False
   end.
 Proof.
   intro i; open_input i; unfold model; cbn [i_endpoint i_cfg i_reg i_pres i_grant i_router i_pl i_prev].
   all: destruct e; [destruct g| | |]; destruct r;
-    destruct p as [| |[] ?| |[]|[]| | | |[] []|?|?|[]|[]|[]], meth; cbn; split_goal.
-  all: try (split; [reflexivity|intro HW; try discriminate HW]); split_goal.
+    destruct p as [| |[] ?| |[]|[]| | | |[] []|?|?|[[] ?]|[[] ?]|[[] ?]], meth; cbn; split_goal.
+Qed.
+
+Lemma self_never_other : forall i,
+  names_other_client (i_pres i) = None ->
+  match model i with ORes _ _ _ _ WOther => False | _ => True end.
+Proof.
+  intros [r e c rg p g pl pv] H; cbn [i_pres] in H. unfold model; cbn [i_pres]. rewrite H.
+  destruct (by_grant_assertion _); destruct (authenticate _ _ _ _ _ _ _ _); exact I.
+Qed.
+
+(* acting for the other client is justified by the other client's registration *)
+Lemma other_model : forall i,
+  other_gap i = false ->
+  match model i with
+  | ORes S2 _ _ _ WOther => other_justified i = true
+  | _ => True
+  end.
+Proof.
+  intro i. destruct (names_other_client (i_pres i)) eqn:En.
+  2:{ intros _. pose proof (self_never_other i En) as H.
+      destruct (model i) as [s e tok act w| |]; try exact I. destruct s, w; try exact I; contradiction. }
+  revert En; open_input i; cbn [i_pres]; intro En.
+  all: destruct p as [| |[] ?| |[]|[]| | | |[] []|?|?|[[] ?]|[[] ?]|[[] ?]]; try discriminate En; clear En.
+  all: unfold model, other_gap; cbn [i_endpoint i_cfg i_reg i_pres i_grant i_router i_pl i_prev].
+  all: destruct e; [destruct g| | |]; destruct r; cbn; intro Hgap; split_goal; try exact I.
 Qed.
 
 (* ---------------- the predicate on the model *)
@@ -153,24 +188,23 @@ Lemma names_other_model : forall i,
   end.
 Proof.
   intro i; open_input i; cbn [i_pres]; intro Hno.
-  all: destruct p as [| |[] ?| |[]|[]| | | |[] []|?|?|[]|[]|[]]; try discriminate Hno; clear Hno.
+  all: destruct p as [| |[] ?| |[]|[]| | | |[] []|?|?|[[] ?]|[[] ?]|[[] ?]]; try discriminate Hno; clear Hno.
   all: unfold model; cbn [i_endpoint i_cfg i_reg i_pres i_grant i_router i_pl i_prev].
   all: destruct e; [destruct g| | |]; destruct r; cbn; split_goal; exact I.
 Qed.
 
-Theorem spec_model : forall i, known_gap i = false -> spec i (model i) = true.
+Theorem spec_model : forall i, known_gap i = false -> other_gap i = false -> spec i (model i) = true.
 Proof.
-  intros i Hg.
+  intros i Hg Hog.
   pose proof (justified_model i Hg) as Hj.
   pose proof (names_other_model i) as Hn.
   pose proof (refusal_shape_model i) as Hr.
+  pose proof (other_model i Hog) as Ho.
   unfold spec. destruct (model i) as [s e tok act w| |]; try contradiction.
   destruct s; try exact Hr.
-  destruct Hr as [-> Hw]. cbn [andb].
-  destruct (names_other (i_pres i)) eqn:E.
-  - specialize (Hn eq_refl). destruct w; try exact Hn. exact (Hw eq_refl).
-  - destruct w; try (apply Hj; reflexivity).
-    exact (Hw eq_refl).
+  subst e. cbn [andb].
+  destruct w; try exact Ho.
+  all: destruct (names_other (i_pres i)) eqn:E; [exact (Hn eq_refl)|apply Hj; reflexivity].
 Qed.
 
 Definition gap_witness : input :=
@@ -276,27 +310,45 @@ Qed.
    names it (public client on a public grant / revocation, device code): a valid credential of X
    next to the id of Y never buys anything Y's id alone would not. *)
 Lemma acts_for_other : forall i s e tok act,
+  other_gap i = false ->
   model i = ORes s e tok act WOther -> other_justified i = true.
 Proof.
-  intros i s e tok act Hm.
+  intros i s e tok act Hog Hm.
   pose proof (refusal_shape_model i) as H. rewrite Hm in H.
+  pose proof (other_model i Hog) as Ho. rewrite Hm in Ho.
   destruct s; try (unfold refusal_shape in H; rewrite ?andb_false_r in H; cbn in H; discriminate H).
-  destruct H as [_ H]. now apply H.
+  exact Ho.
 Qed.
 
-(* in particular never for a confidential client Y, except the device code that needs no authentication *)
-Lemma never_for_confidential : forall i s e tok act vm,
-  model i = ORes s e tok act WOther -> victim_of (i_pres i) = Some vm -> vm <> MNone ->
+(* in particular never for a confidential client Y, except the device code that needs no
+   authentication - and that only when Y is registered for the device grant *)
+Lemma never_for_confidential : forall i s e tok act v,
+  other_gap i = false ->
+  model i = ORes s e tok act WOther -> victim_of (i_pres i) = Some v -> v_meth v <> MNone ->
   i_endpoint i = EDeviceAuthz.
 Proof.
-  intros i s e tok act vm Hm Hv Hn.
-  pose proof (acts_for_other i s e tok act Hm) as H.
+  intros i s e tok act [vm vg] Hog Hm Hv Hn. cbn in Hn.
+  pose proof (acts_for_other i s e tok act Hog Hm) as H.
   unfold other_justified in H. rewrite Hv in H. unfold justified in H; cbn [i_endpoint i_cfg i_reg i_pres i_grant] in H.
   destruct (i_endpoint i); try reflexivity; exfalso.
   - unfold token_justified, cred_valid in H; cbn in H.
     destruct (i_grant i), vm; cbn in H; rewrite ?andb_false_r in H; try discriminate H; now apply Hn.
   - unfold introspect_justified, authenticated in H; cbn in H. destruct vm; cbn in H; discriminate H.
   - unfold revoke_justified, authenticated in H; cbn in H. destruct vm; cbn in H; try discriminate H; now apply Hn.
+Qed.
+
+(* a device code is stored in another client's name only if that client is registered for the
+   device grant (and the request names it) *)
+Lemma device_code_for_other_needs_grant : forall i s e tok act v,
+  model i = ORes s e tok act WOther -> victim_of (i_pres i) = Some v -> i_endpoint i = EDeviceAuthz ->
+  registered (victim_reg v) GDevice = true.
+Proof.
+  intros i s e tok act v Hm Hv He.
+  assert (Hog : other_gap i = false) by (unfold other_gap; rewrite He; now destruct (i_router i)).
+  pose proof (acts_for_other i s e tok act Hog Hm) as H.
+  unfold other_justified in H. rewrite Hv in H. unfold justified in H; cbn [i_endpoint i_cfg i_reg i_pres i_grant] in H.
+  rewrite He in H. unfold device_authz_justified in H; cbn [i_reg i_pres] in H.
+  apply andb_true_iff in H as [_ H]. exact H.
 Qed.
 
 (* the model never panics and never writes twice *)
@@ -469,11 +521,11 @@ Proof. vm_compute. reflexivity. Qed.
 (* cross-client requests: X's valid credential with Y's id and Y's artefact acts for X or not at all *)
 Example cross_nonvacuous :
   let x := mkReg true MBasic AWeb all_grants true in
-  model (mkInput RProvider ERevoke all_on x (PXBasic MBasic) GMissing std_pl NoPrev) = ORes S4 EInvalidClient false false WNone
-  /\ model (mkInput RLegacy EToken all_on x (PXBasic MBasic) GCode std_pl NoPrev) = ORes S4 EInvalidGrant false false WNone
-  /\ model (mkInput RProvider EToken all_on x (PXAssert MBasic) GCC std_pl NoPrev) = ORes S4 EInvalidClient false false WNone
-  /\ model (mkInput RLegacy EToken all_on x (PXBasic MBasic) GCC std_pl NoPrev) = ORes S2 ENone true false WSelf
-  /\ model (mkInput RProvider EIntrospect all_on x (PXAssert MBasic) GMissing std_pl NoPrev) = ORes S2 ENone false false WNone.
+  model (mkInput RProvider ERevoke all_on x (PXBasic (mkV MBasic true)) GMissing std_pl NoPrev) = ORes S4 EInvalidClient false false WNone
+  /\ model (mkInput RLegacy EToken all_on x (PXBasic (mkV MBasic true)) GCode std_pl NoPrev) = ORes S4 EInvalidGrant false false WNone
+  /\ model (mkInput RProvider EToken all_on x (PXAssert (mkV MBasic true)) GCC std_pl NoPrev) = ORes S4 EInvalidClient false false WNone
+  /\ model (mkInput RLegacy EToken all_on x (PXBasic (mkV MBasic true)) GCC std_pl NoPrev) = ORes S2 ENone true false WSelf
+  /\ model (mkInput RProvider EIntrospect all_on x (PXAssert (mkV MBasic true)) GMissing std_pl NoPrev) = ORes S2 ENone false false WNone.
 Proof. vm_compute. repeat split; reflexivity. Qed.
 
 (* where parameters travel: a device_code in the URL query is not read by the Provider router;
@@ -489,11 +541,11 @@ Example placement_nonvacuous :
     = ORes S2 ENone true false WSelf
   /\ model (mkInput RLegacy EToken all_on nogrant (PBasic SRight false) GTE (mkPl GPQuery InBody InBody) NoPrev)
     = ORes S4 EUnauthorizedClient false false WNone
-  /\ model (mkInput RLegacy EToken all_on x (PXDup MBasic) GCode std_pl NoPrev)
+  /\ model (mkInput RLegacy EToken all_on x (PXDup (mkV MBasic true)) GCode std_pl NoPrev)
     = ORes S4 EInvalidClient false false WNone
-  /\ model (mkInput RLegacy EToken all_on (mkReg true MPKJWT AWeb all_grants true) (PXAssert MPKJWT) GCode std_pl NoPrev)
+  /\ model (mkInput RLegacy EToken all_on (mkReg true MPKJWT AWeb all_grants true) (PXAssert (mkV MPKJWT true)) GCode std_pl NoPrev)
     = ORes S4 EInvalidGrant false false WNone
-  /\ model (mkInput RLegacy EToken all_on x (PXPost MNone) GCode std_pl NoPrev)
+  /\ model (mkInput RLegacy EToken all_on x (PXPost (mkV MNone true)) GCode std_pl NoPrev)
     = ORes S2 ENone true false WOther.
 Proof. vm_compute. repeat split; reflexivity. Qed.
 
